@@ -17,7 +17,8 @@ pub const THREADS: &[&str] = &["1", "2", "3", "4", "8", "16", "16", "5"];
 pub fn compile_child(art: &Value) -> Value {
   let (mods, entry) = mods_of(art);
   let order: usize = std::env::var("VERIF_MODULE_ORDER").ok().and_then(|s| s.parse().ok()).unwrap_or(0);
-  match crate::model::exec::compile_in_order(&mods, &entry, order) {
+  let extra: Vec<Vec<String>> = art["extra_entries"].as_array().cloned().unwrap_or_default().iter().map(|e| e.as_array().cloned().unwrap_or_default().iter().map(|x| x.as_str().unwrap_or("").to_string()).collect()).collect();
+  match crate::model::exec::compile_in_order_with_entries(&mods, &entry, &extra, order) {
     crate::model::exec::CompileOutcome::Ok(c) => json!({"verdict": "accepted", "wasm_hash": fnv(&c.wasm), "ts_hash": fnv(c.ts_code.as_bytes()), "wasm_b64": b64(&c.wasm), "ts": c.ts_code, "loader": c.loader, "main": c.main}),
     crate::model::exec::CompileOutcome::Rejected(m) => json!({"verdict": "rejected", "diagnostics": m}),
     crate::model::exec::CompileOutcome::Panicked(e) => json!({"verdict": "panicked", "where": e.0, "message": e.1}),
@@ -103,6 +104,53 @@ fn run_child(art_path: &std::path::Path, threads: &str, order: usize) -> Option<
   serde_json::from_slice(&out.stdout).ok()
 }
 
+/// Several entry modules over mutually recursive enums and an enum that wraps one of them: how an
+/// enum is laid out may depend on which type the specialiser meets first, and the entry points meet
+/// them in different orders. Only agreement between processes is judged.
+fn recursive_enum_host(t: &mut Tape) -> Value {
+  let wrap = ["Tree", "Forest"][t.choose(2)];
+  let mut classes = vec![
+    "class Tree(Node(Forest), Leaf) {\n  function leaf(): Tree = Tree.Leaf()\n}\n".to_string(),
+    "class Forest(Grove(Tree), Bare) {\n  function bare(): Forest = Forest.Bare()\n}\n".to_string(),
+    format!("class Slot(Filled({wrap}), Vacant) {{\n  method describe(): Str =\n    match (this) {{\n      Filled(_) -> \"filled\",\n      Vacant -> \"vacant\",\n    }}\n}}\n"),
+  ];
+  if t.bool(1, 2) {
+    classes.push("class Pot(Planted(Slot), Empty) {\n  method describe(): Str =\n    match (this) {\n      Planted(s) -> \"planted:\" :: s.describe(),\n      Empty -> \"empty\",\n    }\n}\n".to_string());
+  }
+  let has_pot = classes.len() == 4;
+  let k = t.choose(classes.len());
+  classes.rotate_left(k);
+  let shapes = classes.join("\n");
+  let inner = if wrap == "Tree" { ["Tree.Leaf()", "Tree.Node(Forest.Bare())"] } else { ["Forest.Bare()", "Forest.Grove(Tree.Leaf())"] };
+  let main_text = |t: &mut Tape| -> String {
+    let mut lines = vec![];
+    for _ in 0..1 + t.choose(4) {
+      lines.push(match t.choose(if has_pot { 7 } else { 5 }) {
+        0 => "    let _ = Tree.Leaf();\n".to_string(),
+        1 => "    let _ = Forest.Bare();\n".to_string(),
+        2 => format!("    let _ = Process.println(Slot.Filled({}).describe());\n", inner[t.choose(2)]),
+        3 => "    let _ = Process.println(Slot.Vacant().describe());\n".to_string(),
+        4 => "    let _ = Forest.Grove(Tree.Node(Forest.Bare()));\n".to_string(),
+        5 => format!("    let _ = Process.println(Pot.Planted(Slot.Filled({})).describe());\n", inner[t.choose(2)]),
+        _ => "    let _ = Process.println(Pot.Empty().describe());\n".to_string(),
+      });
+    }
+    let imports = if has_pot { "import { Tree, Forest, Slot, Pot } from Shapes;\n\n" } else { "import { Tree, Forest, Slot } from Shapes;\n\n" };
+    format!("{imports}class Main {{\n  function main(): unit = {{\n{}    let _ = Process.println(\"done\");\n  }}\n}}\n", lines.join(""))
+  };
+  let n_entries = 2 + t.choose(2);
+  let names = ["Report", "Census", "Audit"];
+  let mut mods: Mods = vec![(vec!["Shapes".to_string()], shapes)];
+  for name in names.iter().take(n_entries) {
+    mods.push((vec![name.to_string()], main_text(t)));
+  }
+  let which = t.choose(n_entries);
+  let mut art = art_of(&mods, &[names[which].to_string()], &["recursive-enums-several-entry-modules"]);
+  art["extra_entries"] = json!(names.iter().take(n_entries).enumerate().filter(|(i, _)| *i != which).map(|(_, n)| vec![n.to_string()]).collect::<Vec<_>>());
+  art["faults"] = json!([]);
+  art
+}
+
 impl Prop for C12 {
   fn id(&self) -> &'static str {
     "C12"
@@ -130,6 +178,9 @@ impl Prop for C12 {
       let mut art = art_of(&mods, &["P0".to_string()], &["pattern-matrices"]);
       art["faults"] = json!([{"kind": "pattern-matrices", "site": "generated"}]);
       return art;
+    }
+    if t.bool(1, 10) {
+      return recursive_enum_host(t);
     }
     let mut cfg = super::behav::cfg_for("C12", tier);
     cfg.max_classes = 7;
